@@ -77,7 +77,7 @@ class C18(Property):
     design_ref = 'DESIGN.md section 10, C18'
     required_theorems = (
         'equiv_refl', 'equiv_symm', 'equiv_trans', 'equiv_true_iff', 'equiv_resolved', 'equiv_perm',
-        'equiv_false_of_missing_event', 'eventEq_equivalence',
+        'equiv_false_of_missing_event', 'eventEq_equivalence', 'equivFull_symm', 'equivFull_false_of_ontology',
     )
     level_text = ('Lean 4 theorems over the model of EventCollection.is_equivalent_of (ontology comparison, collision '
                   'resolution of both sides, hash-by-hash comparison in both directions): it is reflexive, symmetric and '
@@ -86,7 +86,7 @@ class C18(Property):
                   'objects, attachment identifiers and parents, and false when a logical event exists on one side only '
                   'or the ontologies differ. Compared with the code on generated collections, all single-difference '
                   'mutants and both argument orders.')
-    level_note = ('Proof is about the model; the ontology comparison is an input bit (C09), merging is the C04/C05 model, '
+    level_note = ('Proof is about the model; the ontology comparison is the C09 model (equivFull_symm composes the two; the harness passes its verdict as a bit), merging is the C04/C05 model, '
                   'the sticky hash is the C01 model; attachment values are ignored by event equality by design.')
     technique = 'Lean 4 proof (equivalence-relation laws via canonical event views, per-hash refinement) + differential correspondence'
     parallel = True
